@@ -61,6 +61,10 @@ func reflectMap(v interface{}) (reflect.Value, bool) {
 	rt := rv.Type()
 	for rv.Kind() == reflect.Interface || rv.Kind() == reflect.Pointer {
 		rv = rv.Elem()
+		if isNil(rv) {
+			// 指向 nil 指针/nil 接口的指针: 不是 map, 交给 TypeOf/ValOf 报错
+			return rv, false
+		}
 		rt = rv.Type()
 	}
 	if rt.Kind() != reflect.Map || rt.Key().Kind() != reflect.String {
